@@ -145,6 +145,7 @@ def doInstall (entryOff funcSize : Nat) (orig : List Byte) : String :=
 
 /-! ### histories: `c14.hist <targets> | <steps>`
   target `T:<slot>:<entryOff>:<fsz>:<first13>:<name>` — a real function in text page number `slot`;
+  target `S:<E>:<P>:<fsz>:<first13>:<name>`           — E code bytes + P INT3 bytes + a successor, in its own mapping;
   target `M:<off>:<fsz>:<first13>:<name>`             — a copy of that function at offset `off` of the middle page of its own
                                                           3-page r-x mapping (may straddle the page end);
   steps `patch.i apply.i unpatch.i restore.i unpatchfn.i unpatchall unmap.i`.
@@ -162,7 +163,11 @@ def hbaseM (i : Nat) : Nat := base.toNat + 0x1000000 * (i + 1)
 
 def parseTarget (i : Nat) (t : String) : Option HTarget :=
   match t.splitOn ":" with
-  | ["T", slot, eo, fsz, first, _] => do
+  | ["S", _, _, fsz, first, _] => do      -- a short padded function at the start of the middle page of its own mapping
+    let f ← parseNat fsz; let b ← parseBytes first
+    pure ⟨true, BitVec.ofNat 64 (hbaseM i + 4096), f, b, BitVec.ofNat 64 (hbaseM i)⟩
+  | [k, slot, eo, fsz, first, _] => do
+    if k != "T" && k != "C" then none
     let sl ← parseNat slot; let e ← parseNat eo; let f ← parseNat fsz; let b ← parseBytes first
     pure ⟨false, BitVec.ofNat 64 (hbaseT + 4096 * (1 + sl) + e), f, b, 0⟩
   | ["M", off, fsz, first, _] => do
